@@ -35,7 +35,12 @@ MANIFEST = {
             "position, every residue missing each of N/CA/C/CB/CG, water inserted at every position, hydrogens, reversed "
             "atom order} + 1- and 2-residue peptides: compute_phi/psi/omega/chi1..5 must return exactly the quartets found "
             "by atom name from the documented definitions, in residue order, with values identical to compute_dihedrals on "
-            "them and equal to the oracle. Index-list length classes {1..9, 255..257, 300, 511..513, 767, 768, 1000, 1024, "
+            "them and equal to the oracle. Short-image clusters in the strongly skewed cells (g45, g135, tric_45_60_75, tric_135_100_110, "
+            "reduced and unreduced): six atoms per frame placed so that plain bond vectors shorter than half the shortest cell "
+            "EDGE are not the minimum images (s*v for every lattice vector v shorter than the edges), all ordered triplets / "
+            "quartets. Residue-name vocabularies with identical atoms (PDB, Amber HID/HIE/HIP/CYX/ASH/GLH/LYN/termini, CHARMM "
+            "HSD/HSE/HSP, GROMACS HISE/LYSH/CYS2, unknown names for all or for each single residue, each also split into two "
+            "chains): quartets expected from atom names only. Index-list length classes {1..9, 255..257, 300, 511..513, 767, 768, 1000, 1024, "
             "1025}: a sub-list must give exactly the rows of the full call (3-frame stacks: all three kernels). Histories on "
             "ONE Topology object: call all named functions, edit in place keeping chain/residue/atom counts (16 edits: rename "
             "atom / residue, delete+add, insert+delete), call all, edit, call all, for every ordered pair of edits on two "
@@ -113,7 +118,48 @@ def _codes(T, n):
     return c
 
 
+SHORT_IMAGE_CELLS = ["g45", "g45+unreduced", "g135", "g135+unreduced", "tric_45_60_75", "tric_45_60_75+unreduced",
+                     "tric_135_100_110", "tric_135_100_110+unreduced"]
+SHORT_IMAGE_MAX_FRAMES = 16
+
+
+def _setup_short_image(spec):
+    """Clusters of SHORT bonds in strongly skewed cells: for every lattice vector v = n.V (n in {-2..2}^3) shorter than the
+    shortest cell edge and every s in {0.52, 0.54, .. 0.96} with s|v| < 0.49 * shortest edge, one frame with six atoms
+    A, B = A + s v, C = A + w1, D = B + w2, E = A + w3, G = B + w4 (w_k generic, a quarter of the smallest width at most
+    per component): the plain vectors A->B, C->D, ... are shorter than half the shortest EDGE but are not the minimum
+    images (s v - v is shorter), all other bonds are short.  All ordered triplets / quartets of the six atoms."""
+    menu = _menu()
+    c = menu[spec["cells"][0]]
+    one = dict(lengths=np.array([c["lengths"]]), angles=np.array([c["angles"]])) if c["reduced"] else \
+        dict(vectors=np.array([c["vectors"]], dtype=np.float32))
+    V = gc.make_traj(np.zeros((1, 1, 3), np.float32), **one).unitcell_vectors[0].astype(np.float64)
+    edge = np.linalg.norm(V, axis=1).min()
+    w = grids.cell_widths(V).min()
+    nn = np.array(list(itertools.product(range(-2, 3), repeat=3)), dtype=np.float64)
+    lv = nn @ V
+    ln = np.linalg.norm(lv, axis=1)
+    short = lv[(ln > 1e-9) & (ln < 0.999 * edge)]
+    frames = [(v, s) for v in short for s in np.arange(0.52, 0.97, 0.02) if s * np.linalg.norm(v) < 0.49 * edge]
+    if len(frames) > SHORT_IMAGE_MAX_FRAMES:
+        frames = frames[:: int(np.ceil(len(frames) / SHORT_IMAGE_MAX_FRAMES))]
+    F = len(frames)
+    xyz = np.zeros((F, 6, 3))
+    for f, (v, s) in enumerate(frames):
+        j = grids.jitter(6, 3, scale=1.0, seed=spec["seed"] * 31 + f)
+        A = np.array([0.11, 0.23, 0.37]) @ V
+        B = A + s * v + 0.04 * w * j[0]
+        xyz[f] = [A, B, A + 0.5 * w * j[1], B + 0.5 * w * j[2], A + 0.5 * w * j[3], B + 0.5 * w * j[4]]
+    kw = {k: np.repeat(val, F, axis=0) for k, val in one.items()}
+    Vst = None
+    if F:
+        Vst = gc.make_traj(np.zeros((F, 1, 3), np.float32), **kw).unitcell_vectors.astype(np.float64)
+    return [c] * F, xyz.astype(np.float32), kw, "short-image", Vst, None
+
+
 def _setup(spec):
+    if spec["place"] == "short-image":
+        return _setup_short_image(spec)
     menu = _menu()
     dims = tuple(spec["dims"])
     lat, P = _lattice(dims, spec["jit"], spec["seed"])
@@ -157,6 +203,9 @@ def _job(spec):
     cells, xyz32, kw, kind, Vst, lat = _setup(spec)
     F, n = xyz32.shape[:2]
     acc = Acc(spec)
+    if F == 0:           # short-image job of a cell without a lattice vector shorter than its edges
+        return {"name": spec["name"], "kind": kind, "n": {}, "ratio": {}, "viol": [], "samples": [], "nT": 0, "nQ": 0,
+                "nTs": 0, "nQs": 0}
     x64 = xyz32.astype(np.float64)
     have_cell = Vst is not None
     ortho = [bool(c["ortho"]) for c in cells]
@@ -194,6 +243,7 @@ def _job(spec):
         if per:
             B = np.empty_like(plain)
             okb = np.zeros((F, n, n), bool)
+            shift = np.zeros((F, n, n), bool)
             eb = np.empty((F, n, n))
             for f in range(F):
                 mi = gc.min_image(plain[f], Vst[f], second=True)
@@ -208,6 +258,7 @@ def _job(spec):
                 acc.n["bonds_outside_domain"] += int((~dom & off).sum())
                 acc.n["bonds_image_not_unique"] += int((dom & ~unique & off).sum())
                 acc.n["bonds_needing_image_shift"] += int((np.any(mi["n"] != 0, axis=-1) & off).sum())
+                shift[f] = np.any(mi["n"] != 0, axis=-1)
         else:
             B = plain
             okb = np.ones((F, n, n), bool)
@@ -230,6 +281,16 @@ def _job(spec):
         okQ = okQ_b & (s12 >= gc.SIN_MIN) & (s23 >= gc.SIN_MIN)
         tolQ = gc.tol_dihedral(b1, b2, b3, e1, e2, e3)
         ptag = "periodic" if periodic else "nonperiodic"
+        if per and kind == "short-image":
+            # the designed class: every plain bond vector shorter than half the shortest cell edge, yet one is not the minimum image
+            he = 0.5 * np.linalg.norm(Vst, axis=2).min(axis=1)[:, None]
+            pl = np.linalg.norm(plain, axis=-1)
+            shq = [pl[fi, Q[:, m], Q[:, m + 1]] < he for m in range(3)]
+            anysh = shift[fi, Q[:, 0], Q[:, 1]] | shift[fi, Q[:, 1], Q[:, 2]] | shift[fi, Q[:, 2], Q[:, 3]]
+            acc.n["quartets_all_plain_bonds_below_half_edge_but_one_not_minimum_image"] += int((okQ & shq[0] & shq[1] & shq[2] & anysh).sum())
+            sht = [pl[fi, T[:, 1], T[:, 0]] < he, pl[fi, T[:, 1], T[:, 2]] < he]
+            anyt = shift[fi, T[:, 1], T[:, 0]] | shift[fi, T[:, 1], T[:, 2]]
+            acc.n["triplets_all_plain_bonds_below_half_edge_but_one_not_minimum_image"] += int((okT & sht[0] & sht[1] & anyt).sum())
         acc.n["triplets"] += int(okT.size)
         acc.n["quartets"] += int(okQ.size)
         acc.n["triplets_excluded_bond_domain"] += int((~okT_b).sum())
@@ -332,6 +393,32 @@ DROP_ATOMS = ["N", "CA", "C", "CB", "CG"]
 NCELLS = [None, "cubic3", "tric_75_100_115"]
 
 
+def _voc(mapping, termini=False):
+    def f(k, L, r):
+        n = mapping.get(r, r)
+        if termini and k == 0:
+            n = "N" + n
+        if termini and k == L - 1:
+            n = "C" + n
+        return r if n == r else "%s:%s" % (r, n)
+    return f
+
+
+VOCABULARIES = {
+    "pdb": _voc({}),
+    "amber/HID": _voc({"HIS": "HID", "CYS": "CYX", "ASP": "ASH", "GLU": "GLH", "LYS": "LYN"}),
+    "amber/HIE": _voc({"HIS": "HIE", "CYS": "CYM"}),
+    "amber/HIP": _voc({"HIS": "HIP", "LYS": "LYP"}),
+    "amber/termini": _voc({"HIS": "HIE"}, termini=True),
+    "charmm/HSD": _voc({"HIS": "HSD"}),
+    "charmm/HSE": _voc({"HIS": "HSE"}),
+    "charmm/HSP": _voc({"HIS": "HSP"}),
+    "gromacs": _voc({"HIS": "HISE", "LYS": "LYSH", "CYS": "CYS2", "ASP": "ASPH", "GLU": "GLUH"}),
+    "unknown/all": lambda k, L, r: "%s:Z%s%s" % (r, "ABCDEFGHIJKLMNOPQRSTUVWXYZ"[k // 26], "ABCDEFGHIJKLMNOPQRSTUVWXYZ"[k % 26]),
+    "unknown/lower": lambda k, L, r: "%s:%s" % (r, r.lower()),
+}
+
+
 def _variants(seqname, seq):
     """All topology variants of one sequence: (family, label, chains, drop, reverse_atoms, hydrogens)."""
     out = [("intact", "intact", [seq], (), False, False),
@@ -346,6 +433,16 @@ def _variants(seqname, seq):
                 out.append(("missing-" + a, "res%d(%s)-missing-%s" % (k, seq[k], a), [seq], ((k, a),), False, False))
     for k in range(L + 1):
         out.append(("water-inserted", "water@%d" % k, [seq[:k] + ["HOH"] + seq[k:]], (), False, False))
+    if L >= 10:
+        # residue-name vocabularies with identical atoms: the documented definitions name atoms, not residue names
+        for vname, voc in VOCABULARIES.items():
+            named = [voc(k, L, r) for k, r in enumerate(seq)]
+            out.append(("vocab-" + vname.split("/")[0], "vocab-" + vname, [named], (), False, False))
+            out.append(("vocab-" + vname.split("/")[0], "vocab-%s+split@%d" % (vname, L // 2), [named[:L // 2], named[L // 2:]],
+                        (), False, False))
+        for k in range(L):
+            named = [("%s:ZZZ" % r) if i == k else r for i, r in enumerate(seq)]
+            out.append(("vocab-one-unknown", "res%d(%s)-named-ZZZ" % (k, seq[k]), [named], (), False, False))
     if L >= 4:
         out.append(("three-chains-missing-N", "split@2,split@%d,res3-missing-N" % (L - 1),
                     [seq[:2], seq[2:L - 1], seq[L - 1:]], ((3, "N"),), False, False))
@@ -618,6 +715,9 @@ def _jobs(ctx):
                 else:
                     jobs.append(dict(name=sn, cells=list(lst), **common))
         jobs.append(dict(name="nocell", cells=None, place="whole", jit=jit, dims=dims, sub=sub, seed=ctx.seed))
+    for nm in SHORT_IMAGE_CELLS:
+        jobs.append(dict(name="short-image/" + nm, cells=[nm], place="short-image", jit=JITS[0], dims=(1, 2, 3), sub=(1, 2, 3),
+                         seed=ctx.seed))
     return jobs, names
 
 
@@ -630,7 +730,7 @@ def run(ctx):
     jobs, names = _jobs(ctx)
     nvars, seqnames = _named_variants(ctx)
     menu = _menu()
-    cost = lambda j: 0 if j["cells"] is None else sum(0 if menu[c]["ortho"] else 1 for c in j["cells"])
+    cost = lambda j: 0 if (j["cells"] is None or j["place"] == "short-image") else sum(0 if menu[c]["ortho"] else 1 for c in j["cells"])
     hjobs = [{"hist": [pep, i1, ctx.seed]} for pep in HIST_PEPTIDES for i1 in range(len(EDITS))]
     items = [("geom", j) for j in sorted(jobs, key=lambda j: -cost(j))] + [("named", v) for v in nvars] + [("hist", h) for h in hjobs]
     res = ctx.pmap(_dispatch, items, chunksize=1)
@@ -690,6 +790,11 @@ def run(ctx):
             "distinct_histories_with_at_least_one_edit": len(histories),
             "with_two_edits": sum(1 for h in histories if len(h) == 3), "calls": int(tot["history_calls"]),
             "sample": list(histories[len(histories) // 2]) if histories else None},
+        "short_image_design": {
+            "cells": SHORT_IMAGE_CELLS,
+            "judged_quartets_all_plain_bonds_below_half_the_shortest_edge_but_one_not_the_minimum_image":
+                int(tot["quartets_all_plain_bonds_below_half_edge_but_one_not_minimum_image"]),
+            "judged_triplets_same_class": int(tot["triplets_all_plain_bonds_below_half_edge_but_one_not_minimum_image"])},
         "index_sublist_calls_compared_with_full_list": int(tot["index_sublist_calls"]),
         "index_list_length_classes": BLOCK_SIZES,
         "comparisons_per_check": {k[4:]: int(v) for k, v in tot.items() if k.startswith("cmp_")},
